@@ -218,6 +218,26 @@ class OnceIter:
         return iter(self.abs_iter())
 
 
+def _is_generator(fnode) -> bool:
+    cached = getattr(fnode, "_csa_is_gen", None)
+    if cached is not None:
+        return cached
+
+    def has_yield(node):
+        for ch in ast.iter_child_nodes(node):
+            if isinstance(ch, (ast.FunctionDef, ast.AsyncFunctionDef, ast.Lambda, ast.ClassDef)):
+                continue
+            if isinstance(ch, (ast.Yield, ast.YieldFrom)) or has_yield(ch):
+                return True
+        return False
+    r = has_yield(fnode)
+    try:
+        fnode._csa_is_gen = r
+    except AttributeError:
+        pass
+    return r
+
+
 def fresh_number(x):
     """What an array hands out for a cell: a new python number object each time (identity is never shared)."""
     if isinstance(x, int) and not isinstance(x, bool) and not -5 <= x <= 256:
@@ -1149,6 +1169,20 @@ class Evaluator:
         if body and isinstance(body[0], ast.Expr) and isinstance(body[0].value, ast.Constant) \
                 and isinstance(body[0].value.value, str):
             body = body[1:]
+        if _is_generator(fnode):
+            # a generator function: nothing runs at the call; the body runs when the generator is first consumed (its
+            # items are then produced in one go - interleaving with the consumer is not modelled)
+            outer = self
+
+            def produce():
+                child._yields = []
+                try:
+                    child.run(body)
+                finally:
+                    outer.steps += child.steps
+                    outer.effects.extend(child.effects)
+                return child._yields
+            return LazyIter(produce)
         try:
             ret = child.run(body)
         finally:
@@ -1213,6 +1247,29 @@ class Evaluator:
             else:
                 out.append(self.ev(e))
         return out
+
+    def _e_Yield(self, n):
+        if getattr(self, "_yields", None) is None:
+            raise Unsupported("yield outside a generator function being consumed", n)
+        self._yields.append(self.ev(n.value) if n.value is not None else None)
+        return None
+
+    def _e_YieldFrom(self, n):
+        if getattr(self, "_yields", None) is None:
+            raise Unsupported("yield from outside a generator function being consumed", n)
+        v = self.ev(n.value)
+        if hasattr(v, "abs_iter"):
+            v = list(v.abs_iter())
+        elif isinstance(v, Vec):
+            v = list(v.vals)
+        elif isinstance(v, (set, frozenset)):
+            v = set_items(v)
+        elif isinstance(v, dict):
+            v = list(v)
+        if not isinstance(v, (list, tuple, str)):
+            raise Unsupported("yield from an abstract iterable", n)
+        self._yields.extend(v)
+        return None
 
     def _e_NamedExpr(self, n):
         v = self.ev(n.value)
@@ -1912,6 +1969,18 @@ class Evaluator:
                 return fv(*args, **kw)
             except (ValueError, TypeError) as exc:
                 raise AbsRaise(type(exc).__name__, n)
+        if name is not None and name.startswith("str.") and name.count(".") == 1 and "str" not in self.env \
+                and name[4:] in ("maketrans", "join", "lower", "upper", "strip", "split", "isdigit", "startswith",
+                                 "endswith", "replace", "casefold", "title", "format"):
+            args, kw = self._call_args(n)
+            if any(isinstance(a, (Sym, Lin, Vec, Obj)) for a in args):
+                raise Unsupported(f"{name} of an abstract value", n)
+            try:
+                return getattr(str, name[4:])(*args, **kw)
+            except (TypeError, ValueError) as exc:
+                raise AbsRaise(type(exc).__name__, n)
+        if name == "object" and not n.args and not n.keywords and "object" not in self.env:
+            return Obj("object")            # a fresh object, equal to nothing else (sentinel)
         if name == "dict.fromkeys" and "dict" not in self.env:
             args, kw = self._call_args(n)
             keys = args[0]
@@ -2556,7 +2625,8 @@ class Evaluator:
                 frozenset: ("copy", "intersection", "union", "difference", "issubset", "issuperset", "isdisjoint",
                             "symmetric_difference"),
                 dict: ("get", "items", "keys", "values", "clear", "copy", "pop", "update", "setdefault", "popitem"),
-                str: ("split", "strip", "replace", "startswith", "endswith", "lower", "upper", "isdigit", "find",
+                str: ("translate", "casefold", "swapcase", "expandtabs", "encode",
+                      "split", "strip", "replace", "startswith", "endswith", "lower", "upper", "isdigit", "find",
                       "rfind", "join", "lstrip", "rstrip", "splitlines", "partition", "rpartition", "count", "index",
                       "isalpha", "isnumeric", "isalnum", "isspace", "zfill", "title", "capitalize", "format",
                       "rsplit", "center", "ljust", "rjust", "isdecimal", "removeprefix", "removesuffix"),
